@@ -171,7 +171,9 @@ func (r *c11run) checkPatch(p result.Patch, what string) (checked int) {
 		// patch as a whole moves the package upward: what exceeds a level then is the side effect
 		// of another update, which no level governs.
 		v0, va, vb := r.resolved(&w.Manifest)[key], r.resolved(&ma)[key], r.resolved(&mb)[key]
-		if vb == "" || (v0 == "" && va == "") {
+		if vb == "" || v0 == "" {
+			// a package that is not installed without the patch (pulled in by another update of
+			// the same patch and pinned at once) has no "version it would resolve to without"
 			r.out.Count("base_or_new_version_undefined", 1)
 			continue
 		}
